@@ -28,6 +28,11 @@ THEOREMS = [
     "BeyondVerif.C03.changeScale_instant_half",
     "BeyondVerif.C03.changeScale_same_instant",
     "BeyondVerif.C03.changeScale_roundtrip",
+    "BeyondVerif.C03.drift_zero",
+    "BeyondVerif.C03.changeScale_instant_bound",
+    "BeyondVerif.C03.changeScale_instant_bound_half",
+    "BeyondVerif.C03.records_agree",
+    "BeyondVerif.C03.mk_record_of_utc_day",
     "BeyondVerif.C03.changeScale_instant_bound_partial",
     "BeyondVerif.C03.changeScale_eq_hash",
     "BeyondVerif.C03.eop_policy_spec",
@@ -38,25 +43,29 @@ THEOREMS = [
     "BeyondVerif.C03.add_assoc_clock",
     "BeyondVerif.C03.add_assoc_instant",
     "BeyondVerif.C03.cmp_consistent",
+    "BeyondVerif.C03.eq_iff_sub_zero",
+    "BeyondVerif.C03.cmp_exact_us",
     "BeyondVerif.C03.label_irrelevant",
     "BeyondVerif.C03.range_make_spec",
     "BeyondVerif.C03.range_iter_is_progression",
     "BeyondVerif.C03.range_len_eq_length_iter",
     "BeyondVerif.C03.range_mem_of_iter",
     "BeyondVerif.C03.range_contains_iff",
-    "BeyondVerif.C03W.label_day_changes_instant",
+    "BeyondVerif.C03W.label_day_keeps_instant",
     "BeyondVerif.C03W.noon_keeps_instant",
+    "BeyondVerif.C03W.utc_midnight_band_changes_instant",
 ]
 LEVEL_TEXT = ("Lean theorems over an exact integer model (ticks of 1e-7 s) of Date / Timescale.offset / EopDb.get / DateRange, instantiated with the scale graph "
               "(execution order), the _scale_*_minus_* method table (AST) and the IERS tables regenerated from /repo on each run: offsets defined, antisymmetric and "
               "composable for all 36 pairs with the exact constants (decide on coefficient vectors); the constructor and _convert_to_scale keep the instant (omega); "
-              "change_scale moves the instant by at most 1.5 us of rounding plus the disagreement of the two EOP records, and by nothing between UTC/TAI/TT/GPS; "
-              "d+t moves the clock reading by exactly t in every scale, (d+t)-d=t and associativity in TAI/TT/GPS unconditionally; comparisons/hash are functions of "
-              "the instant; DateRange iteration is the arithmetic progression of length len, all members `in` the range, for both step signs (induction); "
+              "change_scale moves the instant by at most 1.5 us of rounding plus the disagreement of the two EOP records — nothing between UTC/TAI/TT/GPS, at most 1.5 us (0.5 us from a "
+              "whole-microsecond reading) with UT1 when both dates carry the same record; the record of a date is the one tabulated for its UTC reading (second lookup of fix fc514f7); "
+              "d+t moves the clock reading by exactly t in every scale, (d+t)-d=t and associativity in TAI/TT/GPS unconditionally; comparisons/hash are those of the "
+              "microsecond-exact `_datetime`, agree with `-` and are functions of the instant; DateRange iteration is the arithmetic progression of length len, all members `in` the range, for both step signs (induction); "
               "|TDB-TT| < 1.7 ms over R for the formula translated from the AST. Exact differential correspondence of the compiled model with the real classes.")
 LEVEL_NOTE = ("Python keeps seconds of day in a double: the integer model is tied on microsecond-exact inputs by exact correspondence (1-4 us slack only where UT1's 0.1-us column or "
-              "the float TDB term enter); 'same instant within 1 us' for UT1 is false of the code near midnight (known finding, kernel-checked witness) and is proved as "
-              "1.5 us + record disagreement; float `_mjd` equality can differ in the last bit (known finding); DateRange is modelled on instants")
+              "the float TDB term enter, and where the double `mjd_utc` decides the day within 3 us of UTC midnight); 'same instant within 1 us' for UT1 is still false within one day's change of "
+              "UT1-UTC of UTC midnight (open finding, kernel-checked witness) and is proved as 1.5 us under 'same EOP record'; DateRange is modelled on instants")
 TECHNIQUE = "Lean 4 proof (omega / induction / kernel decide on regenerated tables / real analysis for the TDB bound) + exact model-implementation correspondence"
 TRUSTED = [
     "harness/props/C03.py extract: Timescale method table and Date constants from the AST, TDB formula through harness/py2lean.py, IERS tables through an independent "
@@ -73,14 +82,16 @@ ASSUMPTIONS = [
     "the TDB-TT term enters the integer model as a parameter (any function); its bound is proved over R, its float evaluation compared to 1e-12 s",
 ]
 NOT_COVERED = [
-    "'same instant within 1 us when UT1 is involved' is false of the current code when the label day differs from the UTC day (known finding C03-eop-record-by-label-day; Witness/C03.lean)",
-    "'compares equal exactly between uniform scales' fails on about 1 conversion in 1e5 because `_mjd` is a double (known finding C03-eq-float-last-bit); the integer model compares exact instants",
+    "'same instant within 1 us when UT1 is involved' is false of the current code when the UTC reading lies within one day's change of UT1-UTC (a few ms) of UTC midnight: UT1-UTC is a step "
+    "function of the UTC day (open finding C03-ut1-step-at-utc-midnight; Witness/C03.lean utc_midnight_band_changes_instant)",
     "UT1/TDB round trip 'within 2 us' and 'UT1: within one day's change of UT1-UTC': oracle only",
     "x, y, lod, dx, dy, dpsi, deps columns of the EOP record (used by frames, not by time scales)",
+    "the day number of `mjd_utc` is taken from a double (resolution 0.6 us): within that distance of UTC midnight the code may pick either neighbouring record; the model uses the exact day",
     "leap-second windows (documented limitation of the library); Date.now, strptime, pickling",
 ]
 OPEN = [
-    "changeScale_instant_bound_partial: the property's 1 us for UT1/TDB is proved as 1.5 us (three separate timedelta roundings) under the hypothesis that both dates use agreeing EOP records",
+    "changeScale_instant_bound_partial: the property's 1 us for UT1 is proved as 1.5 us (three separate timedelta roundings; 0.5 us from a whole-microsecond clock reading) under the hypothesis "
+    "that both dates carry the same EOP record (mk_record_of_utc_day / records_agree say when); with TDB the drift of the TDB term between the two mjd arguments is a parameter",
     "iteration terminates within len+1 iterations (fuel bound) is not stated; theorems are for every fuel with which the loop returns",
 ]
 RULE = ("correspondence: per scale / ordered pair random clock readings 1973-2017 (one third within 75 s of midnight, 12 % around leap seconds), constructors incl. seconds outside [0,86400) "
@@ -285,16 +296,23 @@ def utc_day_of(date):
 # ---------------------------------------------------------------- oracle
 
 def family_scale_pair(a, b, sa, sb, err_us=0):
-    """family of a same-instant / offset / round-trip failure, computed from the failing input itself: the known
-    finding covers only dates whose label day differs from their UTC day (or whose two labels fall on different
-    days), with UT1 involved, and an error no larger than one day's change of UT1-UTC"""
+    """family of a same-instant / offset / round-trip failure, computed from the failing input itself.
+    * `ut1-step-at-utc-midnight` (open finding): UT1 involved, the UTC reading of the instant lies within one day's
+      change of UT1-UTC of UTC midnight, and the error is no larger than that change;
+    * `eop-record-by-label-day:UT1` (fixed by fc514f7; reported as a violation if it returns): UT1 involved, the day
+      number of one of the two clock readings differs from the UTC day, outside that band, error <= one day's change;
+    * otherwise the scale pair class."""
     inv = {sa, sb} & {"UT1", "TDB"}
     ud = utc_day_of(a)
     label_days = {int(a.mjd), int(b.mjd)}
     ut1 = tables()[1]
-    if "UT1" in {sa, sb} and label_days != {ud} and all(ud + k in ut1 for k in (-2, -1, 0, 1, 2)):
+    if "UT1" in {sa, sb} and all(ud + k in ut1 for k in (-2, -1, 0, 1, 2)):
         day_change = max(abs(ut1[ud + k + 1] - ut1[ud + k]) for k in (-2, -1, 0, 1)) // TICK + 3
-        if abs(err_us) <= day_change:
+        utc_us = us_of(a._datetime) - (leap_at(ud) or 0) // TICK
+        tod = utc_us % DAY_US
+        if abs(err_us) <= day_change and min(tod, DAY_US - tod) <= day_change + 2:
+            return "ut1-step-at-utc-midnight"
+        if abs(err_us) <= day_change and label_days != {ud}:
             return "eop-record-by-label-day:UT1"
     if label_days != {ud} and a.eop.tai_utc != b.eop.tai_utc:
         return "eop-record-by-label-day:leap"
@@ -306,13 +324,15 @@ def float_last_bit(a, b):
     return td_us(a - b) == 0 and a._mjd != b._mjd and abs(a._mjd - b._mjd) <= 2 * math.ulp(a._mjd)
 
 
-# inputs on which the same instant compares unequal (found by the correspondence run; kept so that the finding is
-# exercised on every run, whatever the seed)
+# inputs on which the same instant compared unequal before fix d8c716a (found by the correspondence run; kept so that
+# the defect is exercised on every run, whatever the seed, and reported as a violation if it returns)
 PINNED_EQ = [("TT", "GPS", 4853951976994573), ("GPS", "TT", 4661881960568707)]
 
 
-# the input of the kernel-checked counter-witness Witness/C03.lean (label_day_changes_instant), replayed on the real Date
-PINNED_EOP = [("TAI", "UT1", 4932144010000000)]
+# inputs of Witness/C03.lean label_day_keeps_instant (before fix fc514f7: label_day_changes_instant), replayed on the real Date
+PINNED_EOP = [("TAI", "UT1", 4932144010000000), ("TT", "UT1", 4932144050000000), ("UT1", "TAI", 4932143999900000)]
+# the input of the counter-witness utc_midnight_band_changes_instant (open finding ut1-step-at-utc-midnight)
+PINNED_BAND = [("UTC", "UT1", 4932144000000000)]
 
 
 def check_pair(out, rng, sa, sb, us):
@@ -602,7 +622,7 @@ def oracle(ctx, widened):
         for sb in SCALES:
             for _ in range(n_pair):
                 check_pair(out, rng, sa, sb, gen_label(rng, sa))
-    for sa, sb, us in PINNED_EQ + PINNED_EOP:
+    for sa, sb, us in PINNED_EQ + PINNED_EOP + PINNED_BAND:
         check_pair(out, rng, sa, sb, us)
     for scale in SCALES:
         for _ in range(1200 if not big else 12000):
@@ -686,6 +706,22 @@ def scale_ops(tree, names):
     return ops
 
 
+def eop_day_scale(tree):
+    """the scale name `Date.__init__` compares `scale.name` with before the second EOP lookup, and the target of the
+    `scale.offset(mjd, <name>, eop)` call of that block; RuntimeError when the block is not there (pre-fc514f7 code)"""
+    node = next(n for n in tree.body if isinstance(n, ast.ClassDef) and n.name == "Date")
+    init = next(f for f in node.body if isinstance(f, ast.FunctionDef) and f.name == "__init__")
+    for st in ast.walk(init):
+        if isinstance(st, ast.If) and isinstance(st.test, ast.Compare) and isinstance(st.test.left, ast.Attribute) and st.test.left.attr == "name" \
+                and isinstance(st.test.ops[0], ast.NotEq) and isinstance(st.test.comparators[0], ast.Constant):
+            name = st.test.comparators[0].value
+            calls = [c for c in ast.walk(st) if isinstance(c, ast.Call) and isinstance(c.func, ast.Attribute) and c.func.attr == "offset"]
+            gets = [c for c in ast.walk(st) if isinstance(c, ast.Call) and isinstance(c.func, ast.Attribute) and c.func.attr == "get"]
+            if calls and gets and isinstance(calls[0].args[1], ast.Constant) and calls[0].args[1].value == name:
+                return name
+    raise RuntimeError("Date.__init__: the second EOP lookup by UTC day is not there")
+
+
 def extract(ctx):
     from harness import py2lean, instantiate
     from harness.props import C20
@@ -703,6 +739,8 @@ def extract(ctx):
            "def scaleOps : List ScaleOp := [" + ", ".join(f"⟨{h}, {l}, {k}⟩" for h, l, k, _ in ops) + "]",
            f"def refScale : Nat := {names.index(dconst['REF_SCALE'])}",
            f"def defaultScale : Nat := {names.index(dconst['DEFAULT_SCALE'])}",
+           "/-- the scale whose day number indexes the EOP tables: the literal compared with `scale.name` in `Date.__init__` -/",
+           f"def utcScale : Nat := {names.index(eop_day_scale(tree))}",
            "end BeyondVerif.Generated", ""]
     if core.write_if_changed(os.path.join(core.LEAN, "BeyondVerif", "Generated", "Scales.lean"), "\n".join(txt)):
         ch.append("Generated/Scales.lean")
@@ -766,17 +804,24 @@ def real_try(fn):
 def same_reply(real, model, exact):
     """exact: token equality. otherwise (UT1 / TDB involved): clock readings within 4 us (a UT1 date built from a
     clock reading rounds `_s` and `_offset` separately; on a tie of the 0.1-us column the float noise decides, once
-    per construction, two constructions in a change_scale), offsets within 1 tick (float TDB term)"""
+    per construction, two constructions in a change_scale), offsets within 1 tick (float TDB term).
+    When the UTC reading of either reply is within 3 us of midnight the code's `int(mjd_utc)` (a double, resolution
+    0.6 us) and the model's exact day number may pick neighbouring EOP records: the UT1-UTC column may then differ,
+    and for a UT1 date the offset and instant with it (by one day's change of UT1-UTC, < 5 ms)"""
     if real == model:
         return True
-    if exact:
-        return False
     a, b = real.split(), model.split()
     if len(a) != len(b) or a[:2] != b[:2] or a[0] != "ok":
         return False
-    tol = [4, 4, 1, 0, 0, 40]
-    if int(a[3]) // DAY_US != int(b[3]) // DAY_US:
+    tol = [0, 0, 0, 0, 0, 0] if exact else [4, 4, 1, 0, 0, 40]
+    if not exact and int(a[3]) // DAY_US != int(b[3]) // DAY_US:
         tol = [4, 4, 10**5, 10**7, 10**5, 40]    # the two clock readings straddle midnight: neighbouring EOP records
+
+    def near(t):
+        u = (int(t[2]) - int(t[5]) // TICK) % DAY_US
+        return min(u, DAY_US - u) <= 3
+    if near(a) or near(b):
+        tol = [max(tol[0], 5000), tol[1], max(tol[2], 50000), tol[3], 10**5, tol[5]] if a[1] == "UT1" else tol[:4] + [10**5] + tol[5:]
     return all(abs(int(x) - int(y)) <= t for x, y, t in zip(a[2:], b[2:], tol))
 
 
@@ -842,7 +887,7 @@ def correspondence(ctx):
             if rng.random() < 0.3:
                 cases.append((f"d3add pass {sc} {us} {-t}", (lambda sc=sc, us=us, t=t: real_try(lambda: mkdate(us, sc) - timedelta(microseconds=t))), not nonuni(sc), "sub-timedelta"))
     lines = [c[0] for c in cases]
-    model = core.Driver().run(lines)
+    model = core.Driver(ID).run(lines)
     for (line, th, exact, kind), m in zip(cases, model):
         real = th()
         out.count(key=line, kind=kind, exact=exact, reply=real.split()[0] + ("" if real.startswith("ok") else " " + real.split()[1]))
@@ -859,7 +904,7 @@ def correspondence(ctx):
         day = ua // DAY_US
         ub = ua - approx_minus_utc(sa, day) + approx_minus_utc(sb, day) + delta
         cmp_cases.append((sa, ua, sb, ub))
-    model = core.Driver().run([f"d3cmp pass {sa} {ua} {sb} {ub}" for sa, ua, sb, ub in cmp_cases])
+    model = core.Driver(ID).run([f"d3cmp pass {sa} {ua} {sb} {ub}" for sa, ua, sb, ub in cmp_cases])
     for (sa, ua, sb, ub), m in zip(cmp_cases, model):
         x, y = mkdate(ua, sa), mkdate(ub, sb)
         real = "ok %d %d %d %d %d %d %d" % (td_us(x - y), x < y, x <= y, x == y, x >= y, x > y, hash(x) == hash(y))
@@ -867,12 +912,7 @@ def correspondence(ctx):
         gap = abs(int(mt[-1]))            # model distance of the instants in ticks
         exact = not nonuni(sa, sb)
         out.count(key=("cmp", sa, ua, sb, ub), kind="compare", exact=exact, order=("=" if gap == 0 else "<" if mt[2] == "1" else ">"))
-        if exact and gap == 0 and real.split()[1] == "0" and real.split()[2:] != mt[2:-1] and float_last_bit(x, y):
-            # known finding eq-float-last-bit (reported by the oracle on pinned inputs): the float `_mjd` of one instant
-            # differs in its last bit between scales; the model compares exact instants
-            out.tally("known=eq-float-last-bit")
-            ok = True
-        elif exact or gap >= 20:
+        if exact or gap >= 20:
             ok = real.split()[2:] == mt[2:-1] and abs(int(real.split()[1]) - int(mt[1])) <= (0 if exact else 2)
         else:
             ok = abs(int(real.split()[1]) - int(mt[1])) <= 2
@@ -888,7 +928,7 @@ def correspondence(ctx):
                 tai = rng.randint(10, 40) * 10**7
                 ut1 = rng.randint(-9 * 10**6, 9 * 10**6)
                 off_cases.append((sa, sb, num, tai, ut1))
-    model = core.Driver().run([f"d3off {a} {b_} {n} {t} {u}" for a, b_, n, t, u in off_cases])
+    model = core.Driver(ID).run([f"d3off {a} {b_} {n} {t} {u}" for a, b_, n, t, u in off_cases])
     for (sa, sb, num, tai, ut1), m in zip(off_cases, model):
         e = Eop(x=0, y=0, dx=0, dy=0, deps=0, dpsi=0, lod=0, ut1_utc=ut1 / 1e7, tai_utc=tai / 1e7)
         real = get_scale(sa).offset(num / DAY_T, sb, e)
@@ -898,7 +938,7 @@ def correspondence(ctx):
 
     # the TDB-TT formula translated from the source (float instantiation) vs the method
     tdb_cases = [rng.uniform(40000, 60000) for _ in range(200 * N)]
-    model = core.Driver().run([f"d3tdb {core.f2b(x)}" for x in tdb_cases])
+    model = core.Driver(ID).run([f"d3tdb {core.f2b(x)}" for x in tdb_cases])
     for x, m in zip(tdb_cases, model):
         real = float(get_scale("TDB")._scale_tdb_minus_tt(x, None))
         out.count(key=("tdb", x), kind="tdb-formula")
@@ -917,7 +957,7 @@ def correspondence(ctx):
         pol = rng.choice(["pass", "warning", "error"])
         frac = rng.choice([0, 10, DAY_T - 10, rng.randrange(DAY_T)])   # the float mjd resolves 0.6 us: stay 1 us off midnight
         eop_cases.append((pol, day * DAY_T + frac))
-    model = core.Driver().run([f"d3eop {p} {n}" for p, n in eop_cases])
+    model = core.Driver(ID).run([f"d3eop {p} {n}" for p, n in eop_cases])
     try:
         for (pol, num), m in zip(eop_cases, model):
             set_policy(pol)
@@ -972,7 +1012,7 @@ def correspondence(ctx):
                          + " Y " + "".join(str(int(x in rg)) for x in items))
         except ValueError as e:
             reals.append("err null-step" if "Null" in str(e) else "err incoherent")
-    model = core.Driver().run(lines)
+    model = core.Driver(ID).run(lines)
     for c, line, real, m in zip(rng_cases, lines, reals, model):
         out.count(key=line, kind="daterange", step=("0" if c[3] == 0 else "+" if c[3] > 0 else "-"), inclusive=c[4], reply=real.split()[0] + (" " + real.split()[1] if real.startswith("err") else ""))
         if real != m:
